@@ -23,7 +23,8 @@ for n in sorted(os.listdir(src)):
         if fn in ('patch.diff', 'build.sh', 'meta.json') or fn.startswith('demo') and fn.endswith(('.cc', '.h', '.cpp')):
             shutil.copy(os.path.join(d, fn), dst)
     meta = json.load(open(os.path.join(dst, 'meta.json')))
-    meta['property'] = pid
+    meta['property'] = pid[:3]
+    meta['wave'] = 2 if pid.endswith('b') else 1
     meta['confirmed_by_main_session'] = {
         'how': 'tools/verify_seed.sh %s: in a scratch worktree of /repo HEAD: demo on clean build; git apply patch.diff; ninja; ctest -j8; demo again' % pid,
         'result': vt.strip().splitlines(),
